@@ -98,14 +98,14 @@ Theorem C02_payload_no_panic_command : forall w q,
   forall site, item_of cmd_payload command_dfa q w <> Some (IPanic site).
 Proof. exact (item_no_panic command_dfa command_matcher_ids prod_tabs cmd_VL cmd_VT cmd_VC command_certs). Qed.
 
-Theorem C02_calls_accepted : forall (s : st N pitem) b q' w,
+Lemma C02_calls_accepted : forall (s : st N pitem) b q' w,
   Inv N pitem (d_start event_dfa) (d_delta event_dfa) (d_accepting event_dfa) (d_terminal event_dfa)
       (item_of ev_payload event_dfa) s ->
   call_of event_dfa s b = Some (q', w) ->
   run N (d_start event_dfa) (d_delta event_dfa) w = Some q' /\ d_accepting event_dfa q' = true.
 Proof. exact (call_accepted event_dfa event_matcher_ids prod_tabs). Qed.
 
-Theorem C02_calls_accepted_command : forall (s : st N pitem) b q' w,
+Lemma C02_calls_accepted_command : forall (s : st N pitem) b q' w,
   Inv N pitem (d_start command_dfa) (d_delta command_dfa) (d_accepting command_dfa) (d_terminal command_dfa)
       (item_of cmd_payload command_dfa) s ->
   call_of command_dfa s b = Some (q', w) ->
@@ -128,7 +128,7 @@ Proof.
   intros chunks. apply (u8_feed_chunking utf8_dfa u8_V utf8_cert). apply (u8_init_inv utf8_dfa u8_V utf8_cert).
 Qed.
 
-Theorem C02_utf8_decoder_exhausted : forall s : u8st, u8_decode utf8_dfa s [] = Ok (s, None, []).
+Lemma C02_utf8_decoder_exhausted : forall s : u8st, u8_decode utf8_dfa s [] = Ok (s, None, []).
 Proof. reflexivity. Qed.
 
 (* characters are Unicode scalar values *)
@@ -197,12 +197,40 @@ Theorem C02_numeric_fields :
        let kvs := key_value_decode 44 (fst (split_first 59 body)) in
        (id = 0 \/ exists v, In ([105], v) kvs /\ number_decode v = Some id) /\
        (pl = None \/ exists v n, In ([112], v) kvs /\ number_decode v = Some n /\ pl = Some n)) /\
-  (forall data idx c r, dec_osc data = Ok r -> (r = RSome (PColor 2 idx c) \/ r = RExt (PColor 2 idx c)) ->
-     exists body a0 a1 rest, split_on 59 body = a0 :: a1 :: rest /\ number_decode a0 = Some 4 /\ number_decode a1 = Some idx).
+  (forall data name idx c r, dec_osc data = Ok r -> (r = RSome (PColor name idx c) \/ r = RExt (PColor name idx c)) ->
+     exists last body a0 args,
+       index data (length data - 1) = Ok last /\
+       (if last =? 7 then mid data 2 1 else mid data 2 2) = Ok body /\
+       split_on 59 body = a0 :: args /\
+       ((name = 0 /\ idx = 0 /\ number_decode a0 = Some 10) \/
+        (name = 1 /\ idx = 0 /\ number_decode a0 = Some 11) \/
+        (name = 2 /\ number_decode a0 = Some 4 /\ exists a1 rest, args = a1 :: rest /\ number_decode a1 = Some idx))) /\
+  (forall tb data m st, dec_decmode tb data = Ok (RSome (PDecMode m st)) ->
+     exists body rest, mid data 3 2 = Ok body /\ numbers_decode body 59 = m :: st :: rest /\
+                       existsb (N.eqb m) (dt_modes tb) = true /\ existsb (N.eqb st) (dt_statuses tb) = true).
 Proof.
   exact (conj dec_mouse_spec (conj dec_termsize_spec (conj dec_keylevel_spec (conj dec_key_spec
-        (conj keyboard_key_spec (conj dec_devattrs_spec (conj dec_kitty_image_spec dec_osc_palette_spec))))))).
+        (conj keyboard_key_spec (conj dec_devattrs_spec (conj dec_kitty_image_spec (conj dec_osc_spec dec_decmode_spec)))))))).
 Qed.
+
+(* legacy cursor / editing / function keys with a modifier parameter (ModifiedKeyMatcher, CSI code ; m
+   final): the modifier set is the parameter minus one, at most 255 (a zero parameter or a larger set
+   makes the sequence unrecognised: nothing is masked away), the key is named by the final byte and code *)
+Theorem C02_modified_keys : forall data kind arg mode,
+  dec_modkey data = Ok (RSome (PKey kind arg mode)) ->
+  exists body code rest last,
+    mid data 2 1 = Ok body /\ numbers_decode body 59 = code :: (mode + 1) :: rest /\ mode <= 255 /\
+    index data (length data - 1) = Ok last /\
+    (if last =? 126 then tilde_key code else if code =? 1 then final_key last else None) = Some (kind, arg).
+Proof. exact dec_modkey_spec. Qed.
+
+Example C02_modified_keys_nonvacuous :
+  dec_modkey [27; 91; 49; 53; 59; 50; 126] = Ok (RSome (PKey 4 5 1)) /\          (* ESC[15;2~ = shift+F5 *)
+  dec_modkey [27; 91; 49; 59; 57; 65] = Ok (RSome (PKey 15 0 8)) /\              (* ESC[1;9A = super+Up *)
+  dec_modkey [27; 91; 49; 59; 50; 53; 55; 65] = Ok RNone /\                      (* ESC[1;257A: set 256 *)
+  dec_modkey [27; 91; 49; 59; 48; 65] = Ok RNone /\                              (* ESC[1;0A *)
+  dec_modkey [27; 91; 57; 59; 50; 126] = Ok RNone.                               (* ESC[9;2~: no such key *)
+Proof. vm_compute. repeat split; reflexivity. Qed.
 
 (* SGR mouse reports: button name and modifier set in the arithmetic of the protocol (low two bits =
    button, +4 shift, +8 alt, +16 ctrl, +64 wheel; final `M` = press).  A button has a name unless
@@ -245,9 +273,9 @@ Qed.
 
 (* every accepting state of both automata is tagged (decoder.rs:257-261 `expect`), and the payload
    decoders sit where the model's dispatch expects them *)
-Theorem C02_tables :
+Lemma C02_tables :
   tagged_ok event_dfa = true /\ tagged_ok command_dfa = true /\
-  event_matcher_ids = [0; 1; 2; 3; 4; 5; 6; 7; 8; 9; 10; 11; 12; 13] /\ command_matcher_ids = [4; 12].
+  event_matcher_ids = [0; 1; 2; 3; 4; 5; 6; 7; 8; 9; 10; 11; 12; 13; 14] /\ command_matcher_ids = [4; 12].
 Proof. vm_compute. repeat split; reflexivity. Qed.
 
 (* ------------------------------------------------------------------------- *)
@@ -261,7 +289,7 @@ Definition accepted_by (i : N) (w : list N) : bool :=
   | None => false
   end.
 
-Theorem C02_old_code_refuted :
+Lemma C02_old_code_refuted :
   (* ESC [ 0 ; 0 R *)
   (accepted_by 1 [27; 91; 48; 59; 48; 82] = true /\ is_panic (dec_cursor_old [27; 91; 48; 59; 48; 82]) = true) /\
   (* ESC [ < 0 ; 0 ; 0 M *)
@@ -311,6 +339,36 @@ Example C02_overlong_example :
   dec_utf8 [192; 155] = Ok (RSome (PChar 27)) /\ scalar_ok 27 = true /\ utf8_valid [192; 155] = false /\
   dec_utf8 [224; 128; 128] = Ok (RSome (PChar 0)).
 Proof. vm_compute. repeat split; reflexivity. Qed.
+
+(* non-vacuity of the implications: each hypothesis is met by a real sequence *)
+Example C02_numeric_fields_nonvacuous :
+  dec_mouse [27; 91; 60; 54; 53; 59; 49; 52; 50; 59; 51; 48; 77] = Ok (RSome (PMouse 5 256 29 141)) /\   (* ESC[<65;142;30M *)
+  dec_termsize [27; 91; 56; 59; 50; 52; 59; 56; 48; 116; 27; 91; 52; 59; 54; 48; 48; 59; 56; 48; 48; 116]
+    = Ok (RSome (PSize 24 80 600 800)) /\
+  dec_kitty_keyboard [27; 91; 63; 53; 117] = Ok (RSome (PKeyLevel 5)) /\                                   (* ESC[?5u *)
+  dec_kitty_keyboard [27; 91; 53; 55; 51; 55; 54; 59; 53; 117] = Ok (RSome (PKey 4 13 4)) /\               (* ESC[57376;5u = ctrl+F13 *)
+  dec_devattrs [27; 91; 63; 54; 50; 59; 52; 99] = Ok (RSome (PDevAttrs [4; 62])) /\                        (* ESC[?62;4c *)
+  dec_kitty_image [27; 95; 71; 105; 61; 51; 49; 44; 112; 61; 49; 49; 59; 79; 75; 27; 92]
+    = Ok (RSome (PKitty 31 (Some 11) false)) /\                                                            (* ESC_Gi=31,p=11;OK ESC\ *)
+  dec_osc [27; 93; 52; 59; 49; 50; 59; 114; 103; 98; 58; 102; 102; 47; 48; 47; 56; 48; 7]
+    = Ok (RSome (PColor 2 12 (Some (255, 0, 128)))) /\                                                     (* ESC]4;12;rgb:ff/0/80 BEL *)
+  dec_decmode (mk_dtabs [25; 2026] [0; 1; 2] [] [] []) [27; 91; 63; 50; 48; 50; 54; 59; 50; 36; 121]
+    = Ok (RSome (PDecMode 2026 2)) /\                                                                      (* ESC[?2026;2$y *)
+  dec_cursor [27; 91; 57; 55; 59; 49; 53; 82] = Ok (RSome (PCursor 96 14)).                                 (* ESC[97;15R *)
+Proof. vm_compute. repeat split; reflexivity. Qed.
+
+Example C02_mouse_unnamed_nonvacuous :                                                                     (* ESC[<66;1;1M *)
+  mouse_named 66 = false /\ mouse_named 128 = false /\ mouse_named 65 = true /\
+  dec_mouse [27; 91; 60; 54; 54; 59; 49; 59; 49; 77] = Ok RNone.
+Proof. vm_compute. repeat split; reflexivity. Qed.
+
+Example C02_payload_no_panic_nonvacuous :
+  (* `ESC P 1 + r 41 = 42 ESC \` drives the event automaton to an accepting state of the XTGETTCAP matcher *)
+  match run N (d_start event_dfa) (d_delta event_dfa) [27; 80; 49; 43; 114; 52; 49; 61; 52; 50; 27; 92] with
+  | Some q => d_accepting event_dfa q = true /\ d_tag event_dfa q = Some (false, 10)
+  | None => False
+  end.
+Proof. vm_compute. split; reflexivity. Qed.
 
 Example C02_stream_example :
   ex_events [[27; 91; 48; 59]; [48; 82; 237; 160]; [128; 27; 91; 57; 55; 59; 49; 53; 82]] =
